@@ -94,6 +94,71 @@ Theorem C02_roundtrip_residue :
               = Ok (r, CRLF).
 Proof. exact roundtrip_residue_witness. Qed.
 
+(* 3. Cookies.  The Cookie field value is a `;`-separated list of pieces; a piece `k=x` (k without `=`, x possibly
+   containing `=`) gives the cookie (trim k, trim x), a piece without `=` is skipped; order is kept.  `hs` is any
+   header list (e.g. the one `C02_parse_faithful` yields). *)
+Theorem C02_cookies_spec :
+  forall (hs : headers) (items : list citem),
+    hget (HKnown H_Cookie) hs = Some (cookie_value items) -> forallb citem_wf items = true ->
+    cookies_of hs = filter_map citem_denote items.
+Proof. exact cookies_spec. Qed.
+
+(* in particular "k1=v1; k2=v2; ..." with trimmed keys / values gives exactly [(k1,v1); (k2,v2); ...] *)
+Theorem C02_cookies_std :
+  forall (hs : headers) (kvs : list (bytes * bytes)),
+    hget (HKnown H_Cookie) hs = Some (cookie_std kvs) -> Forall cookie_kv_wf kvs -> cookies_of hs = kvs.
+Proof. exact cookies_std. Qed.
+
+Theorem C02_cookies_none : forall hs : headers, hget (HKnown H_Cookie) hs = None -> cookies_of hs = [].
+Proof. exact cookies_none. Qed.
+
+(* "a=1; junk;b = x=y ;c=" -> [(a,1); (b,x=y); (c,"")] ; the standard form of [(a,1);(b,2)] is "a=1; b=2" *)
+Example C02_example_cookies :
+  let items := [CPair [97] [49]; CBare [32;106;117;110;107]; CPair [98;32] [32;120;61;121;32]; CPair [99] []] in
+  forallb citem_wf items = true /\
+  cookie_value items = [97;61;49;59;32;106;117;110;107;59;98;32;61;32;120;61;121;32;59;99;61] /\
+  cookies_of [(HKnown H_Cookie, cookie_value items)] = [([97],[49]); ([98],[120;61;121]); ([99],[])] /\
+  cookie_std [([97],[49]); ([98],[50])] = [97;61;49;59;32;98;61;50] /\
+  hname_of [99;79;79;75;105;101] = HKnown H_Cookie.
+Proof. vm_compute. repeat split. Qed.
+Example C02_example_cookie_kv_wf : Forall cookie_kv_wf [([97],[49]); ([98],[50;61;51])].
+Proof. repeat constructor. Qed.
+
+(* 4. Addresses.  With an X-Forwarded-For field whose value is a comma-separated list of entries (each: padding,
+   text, padding, with `trim` removing exactly the padding and no comma inside), and `ipp` (IpAddr::from_str) deciding
+   which texts are addresses: the origin is the LAST entry that is an address, the proxies are the earlier ones that
+   are addresses, in order, followed by the peer; with no address among the entries, or no such field, the origin is
+   the peer and there are no proxies. *)
+Theorem C02_address_spec :
+  forall (ipp : bytes -> option bytes) (hs : headers) (p : peer) (xs : list xentry),
+    hget XFF hs = Some (xff_value xs) -> xs <> [] -> Forall xe_wf xs ->
+    (filter_map (fun x => ipp (xe_text x)) xs = [] -> address_of ipp hs p = peer_only p) /\
+    (forall init last, filter_map (fun x => ipp (xe_text x)) xs = init ++ [last] ->
+       address_of ipp hs p = {| a_origin := last; a_proxies := init ++ [p_ip p]; a_port := p_port p |}).
+Proof. exact address_spec. Qed.
+
+Theorem C02_address_no_header :
+  forall (ipp : bytes -> option bytes) (hs : headers) (p : peer), hget XFF hs = None -> address_of ipp hs p = peer_only p.
+Proof. exact address_no_header. Qed.
+
+(* the hypothesis on entries holds for SP / HTAB padding around any text without comma that neither starts nor ends
+   with white space (so "a, b", "a,b", "a ,\tb" are all covered) *)
+Theorem C02_address_padding : forall x : xentry, xe_wfb x = true -> xe_wf x.
+Proof. exact xe_wfb_wf. Qed.
+
+(* "1.1.1.1, bogus ,\t2.2.2.2" from peer 9.9.9.9:7 -> origin 2.2.2.2, proxies [1.1.1.1; 9.9.9.9] *)
+Example C02_example_address :
+  let xs := [ {| xe_pad := []; xe_text := [49;46;49;46;49;46;49]; xe_pad' := [] |};
+              {| xe_pad := [32]; xe_text := [98;111;103;117;115]; xe_pad' := [32] |};
+              {| xe_pad := [9]; xe_text := [50;46;50;46;50;46;50]; xe_pad' := [] |} ] in
+  let p := {| p_ip := [57;46;57;46;57;46;57]; p_port := 7 |} in
+  forallb xe_wfb xs = true /\
+  filter_map (fun x => ipv4_parse (xe_text x)) xs = [[49;46;49;46;49;46;49]] ++ [[50;46;50;46;50;46;50]] /\
+  address_of ipv4_parse [(XFF, xff_value xs)] p =
+    {| a_origin := [50;46;50;46;50;46;50]; a_proxies := [[49;46;49;46;49;46;49]; [57;46;57;46;57;46;57]]; a_port := 7 |} /\
+  hname_of [88;45;70;111;114;119;97;114;100;101;100;45;70;111;114] = XFF.
+Proof. vm_compute. repeat split. Qed.
+
 Print Assumptions C02_parse_faithful.
 Print Assumptions C02_example_wf.
 Print Assumptions C02_names_case_insensitive.
@@ -102,3 +167,12 @@ Print Assumptions C02_hsort_stable.
 Print Assumptions C02_roundtrip.
 Print Assumptions C02_roundtrip_exact.
 Print Assumptions C02_roundtrip_residue.
+Print Assumptions C02_cookies_spec.
+Print Assumptions C02_cookies_std.
+Print Assumptions C02_cookies_none.
+Print Assumptions C02_example_cookies.
+Print Assumptions C02_example_cookie_kv_wf.
+Print Assumptions C02_address_spec.
+Print Assumptions C02_address_no_header.
+Print Assumptions C02_address_padding.
+Print Assumptions C02_example_address.
